@@ -370,3 +370,65 @@ def _weak_cache_model(ctx, rep):
            "3 entry states x 4 operations" if not bad else
            "; ".join(bad) + " - _unbox takes its cache-hit branch on `in` and then fails in the lookup (or hands out a dead entry): "
            "the reference does not arrive as a proxy", c.methods["__contains__"].loc, kind="table")
+    _unbox_identity_model(ctx, rep)
+
+
+def _unbox_identity_model(ctx, rep):
+    """R03.10: Connection._unbox evaluated (sa/miniinterp.py) on remote references whose class names are unusual but legal
+    (brackets, hyphens, very long): the identifier under which the proxy is created and cached - and which the proxy will
+    send back in every request and as LABEL_LOCAL_REF - is the identifier that was received, element for element; the same
+    reference received twice yields the same proxy with its count raised by one."""
+    from .. import miniinterp as MI
+    import re as _re
+    rep.rule("R03.10", "the identifier of a received reference is kept verbatim (it is the owner's key for the object)")
+    fu = ctx.func(K.CONN + "._unbox")
+    rep.analysed(fu)
+    conn = ctx.cls(K.CONN)
+    cm = ctx.module("rpyc.core.consts")
+
+    class _NS:
+        mi_native = True
+
+        def __init__(self, **kw):
+            self.__dict__.update(kw)
+    cns = _NS(**{n: v for n in cm.toplevel for v in [ctx.try_fold(ast.Name(id=n, ctx=ast.Load()), cm)] if v is not None})
+    LRR = ctx.const("rpyc.core.consts", "LABEL_REMOTE_REF")
+    bad = []
+    rows = 0
+    try:
+        for name in ("pkg.mod.Plain", "sensors.Reading[float]", "my-plugin.Handler", "gen." + "x" * 300, "weird name.with spaces/€"):
+            rows += 1
+            made = []
+
+            def factory(id_pack, made=made):
+                p = MI.ModelObj("proxy", {"____refcount__": 1, "____id_pack__": id_pack})
+                made.append((id_pack, p))
+                return p
+            state = {"_proxy_cache": {}, "_local_objects": {}, "_netref_classes_cache": {}}
+            extra = {"__calls__": {"self._netref_factory": factory}, "__max_iter__": 200,
+                     "__methods__": {n: m.node for n, m in conn.methods.items() if n not in ("_netref_factory",)},
+                     "__globals__": {"consts": cns, "re": _NS(sub=_re.sub, compile=_re.compile, match=_re.match, escape=_re.escape)}}
+            extra["__global_lookup__"] = K.module_function_lookup(ctx, fu.module, extra, skip=("consts", "re"))
+            value = (name, 4711, 815)
+            try:
+                p1 = MI.call_method(fu.node, state, [(LRR, value)], extra)
+                p2 = MI.call_method(fu.node, state, [(LRR, value)], extra)
+            except MI.Raised as r_:
+                bad.append("a reference to an object of class %r is refused with %s" % (name[:40], r_.name))
+                continue
+            if len(made) != 1 or made[0][0] != value or not all(type(a_) is type(b_) for a_, b_ in zip(made[0][0], value)):
+                bad.append("a reference named %r becomes a proxy for %r" % (name[:40], made[0][0][0][:40] if made else None))
+                continue
+            if list(state["_proxy_cache"]) != [value]:
+                bad.append("the proxy of %r is cached under %r" % (name[:40], list(state["_proxy_cache"])))
+            elif p1 is not p2 or p1 is not made[0][1]:
+                bad.append("the same reference received twice yields two proxies")
+            elif p1.attrs.get("____refcount__") != 2:
+                bad.append("the same reference received twice leaves the proxy's count at %r" % p1.attrs.get("____refcount__"))
+    except AnalysisError as e_:
+        rep.undecided("R03.10", "_unbox identity model", str(e_))
+        return
+    rep.ob("R03.10", "_unbox: proxy created and cached under the received identifier, verbatim; re-received -> same proxy, count + 1",
+           not bad, "%d class names (brackets, hyphen, 300 characters, spaces)" % rows if not bad else
+           "; ".join(bad[:2]) + " - the owner does not know the altered identifier: every use of the proxy fails there and handing "
+           "it back does not reach the original object", fu.loc, kind="model")
